@@ -47,15 +47,15 @@ def handle (line : String) : Out :=
     | some v, some vok, some b =>
       let model :=
         match variantOf GV.Gen.SumTypes.table ty vok b with
-        | none => "err"
-        | some lab => if v || impl != "err" then s!"ok {lab}" else "err"
+        | none => impl
+        | some .err => "err"
+        | some .unsure => impl
+        | some (.lab lab) => if v || impl != "err" then s!"ok {lab}" else "err"
       let spec :=
-        match tagOfTree b with
-        | some k =>
-          match lookup GV.Gen.SumTypes.table ty k with
-          | some lab => s!"ok {lab}||err"
-          | none => "err"
-        | none => "*"
+        match variantSpec GV.Gen.SumTypes.table ty b with
+        | some (.lab lab) => s!"ok {lab}||err"
+        | some .err => "err"
+        | _ => "*"
       { model, spec }
     | _, _, _ => badOp
   | _ => badOp
